@@ -76,6 +76,11 @@ PROPS = {
               K("c05_perm_new_and_flags", "encryption/permissions.rs", "Permissions::new/from_flags/flags/all")],
         not_decided="AES paths (dependency crates), password->key derivation end to end, unlock_with_password, decrypt_object_if_needed, the trailer /Encrypt clause of write_xref_stream",
     ),
+    "C13": dict(
+        verus=["warray"],
+        level_text="the /W run-grouping block of generate_width_array: expanding the emitted array (ISO 32000-1 9.7.4.3) gives back exactly the code->width map it was built from; the rest of C13 is not decided",
+        not_decided="ToUnicode text, CIDToGIDMap, glyph presence, the widths returned by get_glyph_widths, anything an independent extractor would check",
+    ),
     "C16": dict(
         kani=[K("c16_from_degrees_all_i32", "operations/rotate.rs", "RotationAngle::from_degrees/to_degrees"),
               K("c16_combine", "operations/rotate.rs", "RotationAngle::combine")],
